@@ -410,6 +410,45 @@ Fixpoint seq_scales (sizes flags : list Z) (rest : list Z) : list (option (list 
 Definition dfsd_read_scales (sizes : list Z) (rec : list Z) : list (option (list Z)) :=
   let rank := length sizes in seq_scales sizes (firstn rank rec) (skipn rank rec).
 
+(* ------------------------------------------------ the coordinate variable of a dimension (mfsd.c SDgetdimstrs) *)
+(** strncmp(a, b, strlen(a)) == 0 for names without embedded NUL *)
+Fixpoint prefix_eqb (a b : list Z) : bool :=
+  match a, b with
+  | [], _ => true
+  | x :: a', y :: b' => (x =? y) && prefix_eqb a' b'
+  | _ :: _, [] => false
+  end.
+(** namelen == var name length && strncmp(name, var name, strlen(name)) == 0 *)
+Definition name_match (dim var : list Z) : bool := Nat.eqb (length dim) (length var) && prefix_eqb dim var.
+
+Record cvar := mkCv { cv_name : list Z; cv_rank : Z; cv_is_sds : bool; cv_strs : list Z * list Z * list Z }.
+
+(** the loop over handle->vars keeps the LAST one-dimensional variable that is not an SDS and whose name matches *)
+Definition find_coordvar (dim : list Z) (vars : list cvar) : option cvar :=
+  fold_left (fun acc v => if (cv_rank v =? 1) && name_match dim (cv_name v) && negb (cv_is_sds v) then Some v else acc)
+            vars None.
+Definition sd_getdimstrs (dim : list Z) (vars : list cvar) : list Z * list Z * list Z :=
+  match find_coordvar dim vars with Some v => cv_strs v | None => ([], [], []) end.
+
+(* --------------------------------- reading into a caller's array (dfsd.c DFSDIgetslice, dimension collapse) *)
+(** one dimension as the loop sees it: extent of the caller's array, of the window, start of the window, extent in
+    the file.  The loop merges the least significant dimension into the next one unless the regenerated break
+    condition holds; the list is least significant first and the most significant dimension is never merged away. *)
+Definition gdim := (Z * Z * Z * Z)%type.
+Definition collapse_break (d : gdim) : bool :=
+  match d with (a, w, s, f) => negb (getslice_collapse_break a w s f =? 0) end.
+Fixpoint collapse (fuel : nat) (l : list gdim) : list gdim :=
+  match fuel with
+  | O => l
+  | S k =>
+      match l with
+      | (a1, w1, s1, f1) :: (a0, w0, s0, f0) :: rest =>
+          if collapse_break (a1, w1, s1, f1) then l
+          else collapse k ((a0 * a1, w0 * w1, s0 * f1, f0 * f1) :: rest)
+      | _ => l
+      end
+  end.
+
 (** how every view names a type written with flavour bits (native is recorded as the host's class) *)
 Definition shown_nt (nt : Z) : Z :=
   let b := Z.land nt 255 in
